@@ -30,6 +30,12 @@ import (
 )
 
 type vaKey struct{}
+type vaPlanKey struct{}
+
+type vaPlan struct {
+	tag  string
+	n, d int
+}
 
 var vaTagRe = regexp.MustCompile(`v[0-9]+k[0-9]+r[0-9]+`)
 
@@ -106,8 +112,11 @@ func vaRenderAll(ms []*schema.Message) []map[string]any {
 type vaModel struct{ rec *vaRec }
 
 // answer derives the next assistant message from the messages alone: first user message "q|tag|n|d", j = tool messages so far
-func vaAnswer(input []*schema.Message) *schema.Message {
+func vaAnswer(ctx context.Context, input []*schema.Message) *schema.Message {
 	tag, n, d, j := "", 0, 0, 0
+	if p, ok := ctx.Value(vaPlanKey{}).(vaPlan); ok { // all callers of the round send the same message: the conversation is in the context
+		tag, n, d = p.tag, p.n, p.d
+	}
 	for _, m := range input {
 		if m == nil {
 			continue
@@ -145,12 +154,12 @@ func (m *vaModel) see(ctx context.Context, input []*schema.Message) {
 
 func (m *vaModel) Generate(ctx context.Context, input []*schema.Message, _ ...model.Option) (*schema.Message, error) {
 	m.see(ctx, input)
-	return vaAnswer(input), nil
+	return vaAnswer(ctx, input), nil
 }
 
 func (m *vaModel) Stream(ctx context.Context, input []*schema.Message, _ ...model.Option) (*schema.StreamReader[*schema.Message], error) {
 	m.see(ctx, input)
-	a := vaAnswer(input)
+	a := vaAnswer(ctx, input)
 	if len(a.ToolCalls) > 0 {
 		return schema.StreamReaderFromArray([]*schema.Message{{Role: schema.Assistant}, a}), nil
 	}
@@ -187,6 +196,19 @@ type vaVariant struct {
 	rd       bool
 	modifier bool
 	legacy   bool
+	shared   bool // the callers of a round pass the SAME input slice (len 1, cap 8) with the same user message
+}
+
+// what the caller finds in its input slice afterwards: first element, and the cells of the backing array beyond its length
+func vaInputLine(in []*schema.Message) string {
+	beyond := []map[string]any{}
+	full := in[:cap(in)]
+	for i := len(in); i < len(full); i++ {
+		if full[i] != nil {
+			beyond = append(beyond, vaRender(full[i]))
+		}
+	}
+	return vaLine("input", "first", vaRender(in[0]), "beyond", beyond, "len", len(in), "cap", cap(in))
 }
 
 func vaEnvInt(name string, def int) int {
@@ -202,7 +224,8 @@ func TestVerifAgentConc(t *testing.T) {
 		t.Skip("VERIF_OUT not set")
 	}
 	callers, rounds := vaEnvInt("VERIF_CALLERS", 4), vaEnvInt("VERIF_ROUNDS", 12)
-	variants := []vaVariant{{"plain", false, false, false}, {"rd", true, false, false}, {"mod", false, true, true}, {"rdmod", true, true, false}}
+	variants := []vaVariant{{"plain", false, false, false, false}, {"rd", true, false, false, false}, {"mod", false, true, true, false},
+		{"rdmod", true, true, false, false}, {"shared", true, false, false, true}}
 	ctx0 := context.Background()
 	var lines []string
 	ncases := 0
@@ -226,65 +249,86 @@ func TestVerifAgentConc(t *testing.T) {
 			t.Fatalf("NewAgent: %v", err)
 		}
 		results := make(map[string][2]string) // tag -> outcome line of call 1 / call 2
+		inputs := make(map[string]string)      // tag -> input observation
 		var rmu sync.Mutex
+		plan := func(k, r int) (tag string, n, d int, modes []string, user string) {
+			tag = fmt.Sprintf("v%dk%dr%d", vi+1, k, r)
+			n = (k + r) % 3
+			if v.rd && n > 0 && (k+2*r)%3 != 0 {
+				d = 1 + (k+r)%n
+			}
+			modes = []string{"generate", "stream"}
+			if (k+r)%2 == 1 {
+				modes = []string{"stream", "generate"}
+			}
+			user = fmt.Sprintf("q|%s|%d|%d", tag, n, d)
+			if v.shared {
+				user = fmt.Sprintf("q|shared|%d", r)
+			}
+			return
+		}
 		for r := 1; r <= rounds; r++ {
 			var start, done sync.WaitGroup
 			start.Add(1)
+			var sharedIn []*schema.Message
+			if v.shared {
+				sharedIn = make([]*schema.Message, 1, 8)
+				sharedIn[0] = schema.UserMessage(fmt.Sprintf("q|shared|%d", r))
+			}
 			for k := 1; k <= callers; k++ {
 				done.Add(1)
 				go func(k, r int) {
 					defer done.Done()
-					tag := fmt.Sprintf("v%dk%dr%d", vi+1, k, r)
-					n := (k + r) % 3
-					d := 0
-					if v.rd && n > 0 && (k+2*r)%3 != 0 {
-						d = 1 + (k+r)%n
-					}
-					modes := []string{"generate", "stream"}
-					if (k+r)%2 == 1 {
-						modes = []string{"stream", "generate"}
+					tag, n, d, modes, user := plan(k, r)
+					input := sharedIn
+					if !v.shared {
+						input = make([]*schema.Message, 1, 4) // the caller's own slice, with spare capacity as after an append
+						input[0] = schema.UserMessage(user)
 					}
 					var res [2]string
 					start.Wait()
 					for ci, mode := range modes {
 						ctx := context.WithValue(ctx0, vaKey{}, tag+"#"+mode)
-						input := []*schema.Message{schema.UserMessage(fmt.Sprintf("q|%s|%d|%d", tag, n, d))}
+						if v.shared {
+							ctx = context.WithValue(ctx, vaPlanKey{}, vaPlan{tag, n, d})
+						}
 						res[ci] = vaCall(ctx, ag, mode, input)
 					}
 					rmu.Lock()
 					results[tag] = res
+					if !v.shared {
+						inputs[tag] = vaInputLine(input)
+					}
 					rmu.Unlock()
 				}(k, r)
 			}
 			start.Done()
 			done.Wait()
+			if v.shared {
+				line := vaInputLine(sharedIn)
+				for k := 1; k <= callers; k++ {
+					tag, _, _, _, _ := plan(k, r)
+					inputs[tag] = line
+				}
+			}
 		}
 		// per-call projection, one case per (variant, caller, round)
 		for r := 1; r <= rounds; r++ {
 			for k := 1; k <= callers; k++ {
-				tag := fmt.Sprintf("v%dk%dr%d", vi+1, k, r)
-				n := (k + r) % 3
-				d := 0
-				if v.rd && n > 0 && (k+2*r)%3 != 0 {
-					d = 1 + (k+r)%n
-				}
-				modes := []string{"generate", "stream"}
-				if (k+r)%2 == 1 {
-					modes = []string{"stream", "generate"}
-				}
-				lines = append(lines, vaLine("case", "id", "react/"+v.name+"/"+tag, "agent", "react", "variant", v.name, "tag", tag, "n", n, "d", d,
+				tag, n, d, modes, user := plan(k, r)
+				lines = append(lines, vaLine("case", "id", "react/"+v.name+"/"+tag, "agent", "react", "variant", v.name, "tag", tag, "user", user, "n", n, "d", d,
 					"w", 0, "modifier", v.modifier, "rd", v.rd, "callers", callers))
 				for ci, mode := range modes {
 					lines = append(lines, vaLine("call", "mode", mode))
 					lines = append(lines, rec.events[tag+"#"+mode]...)
 					lines = append(lines, results[tag][ci], vaLine("endcall"))
 				}
-				lines = append(lines, vaLine("end"))
+				lines = append(lines, inputs[tag], vaLine("end"))
 				ncases++
 			}
 		}
 		if len(rec.orphan) > 0 {
-			lines = append(lines, vaLine("case", "id", "react/"+v.name+"/orphans", "agent", "react", "variant", v.name, "tag", "", "n", 0, "d", 0,
+			lines = append(lines, vaLine("case", "id", "react/"+v.name+"/orphans", "agent", "react", "variant", v.name, "tag", "", "user", "", "n", 0, "d", 0,
 				"w", 0, "modifier", v.modifier, "rd", v.rd, "callers", callers))
 			for _, l := range rec.orphan {
 				lines = append(lines, vaLine("orphan", "line", l))
